@@ -771,10 +771,21 @@ func c20hBenchCase(r *Run, rng *Rng, dir string, endToEnd bool) {
 	must(os.RemoveAll(dir))
 	nf := rng.Range(1, 3)
 	files := []c20hFile{}
+	negField := false
 	for i := 0; i < nf; i++ {
 		tbs := c20GenTBs(rng)
 		f := c20hFile{name: fmt.Sprintf("kernel-%d.traceg", i+1), tbs: tbs}
 		f.lines = append(c20hCanonicalLines(c20hGenHeader(rng)), c20RenderBody(rng, tbs)...)
+		if rng.Chance(15) {
+			// a warp without instruction lines whose count field is negative: still no instruction lines,
+			// the kernel handed to the driver must say 0 (len(Instructions), not the insts = N field)
+			for i, l := range f.lines {
+				if l == "insts = 0" && rng.Bool() {
+					f.lines[i] = fmt.Sprintf("insts = -%d", rng.Range(1, 9))
+					negField = true
+				}
+			}
+		}
 		files = append(files, f)
 	}
 	// the list: every file at least once, in a random order, some twice, memcpy lines in between
@@ -838,6 +849,9 @@ func c20hBenchCase(r *Run, rng *Rng, dir string, endToEnd bool) {
 	if mutated {
 		return
 	}
+	if negField {
+		r.Count("bench:negative_insts_field")
+	}
 	r.Checked("bench.counts")
 	if strings.Join(kernels, " ") != strings.Join(want, " ") {
 		r.Failf("C20.bench.counts", cs, "kernels built from the trace files (blocks x warps x instruction lines, kernelslist order): want %v got %v", want, kernels)
@@ -889,9 +903,9 @@ func runC20Header(r *Run, rng *Rng, replay string) {
 	os.Stdout = devnull
 	defer func() { os.Stdout = stdout }()
 
-	nHdr, nList, nLine, nBench, nE2E := 1500, 500, 500, 300, 15
+	nHdr, nList, nLine, nBench, nE2E := 3000, 1000, 1000, 600, 20
 	if r.Tier == "thorough" {
-		nHdr, nList, nLine, nBench, nE2E = 15000, 5000, 5000, 3000, 150
+		nHdr, nList, nLine, nBench, nE2E = 30000, 10000, 10000, 6000, 200
 	}
 	dir := filepath.Join(r.OutDir, "c20h")
 	c20hHeaderWitnesses(r, dir)
